@@ -128,3 +128,59 @@ def describe_unit(u: Any) -> Any:
 def default_sample(w: ctl.World) -> Dict[str, Any]:
     return {'program': programs.describe(w.program), 'listener': w.script,
             'choices': [repr(x) for x in w.chooser.labels], 'end': str(w.proc.state)}
+
+
+def sequel_part(module: str, factory_name: str, unit: Any, k_first: int, k_second: int, workers: Any,
+                only: Any = None, without_second: tuple = ()) -> Dict[str, Any]:
+    """What a process does does not depend on the processes that ran before it in the same interpreter: every burst history
+    of <= k_first requests of a first process followed, in the same fresh interpreter, by every burst history of <= k_second
+    requests of a second process of the class, which must be observed exactly as after no earlier process (pv/sequel.py).
+    ``getattr(module, factory_name)()`` must be a burst-mode CtlProperty."""
+    import importlib
+    import os
+    from concurrent.futures import ThreadPoolExecutor
+    from .. import sequel
+    from ..explore import dfs
+    prop = getattr(importlib.import_module(module), factory_name)()
+
+    def histories(k: int, without: tuple = ()) -> List[List[int]]:
+        found: List[List[int]] = []
+
+        def keep(ch: Any, res: Any) -> None:
+            if not any(lab[0] in without for c, lab in zip(ch.choices, ch.labels) if c):
+                found.append(list(ch.choices))
+
+        dfs(prop.make_run(unit), {'K': k}, on_result=keep)
+        return sorted(found, key=lambda c: (sum(1 for x in c if x), c))
+
+    out: Dict[str, Any] = {'n': 0, 'violations': []}
+    if only is not None:
+        firsts, seconds = [only[0]], [only[1]]
+    else:
+        firsts, seconds = histories(k_first), histories(k_second, without_second)
+    then = [[unit, h2] for h2 in seconds]
+    ref = sequel.ask(module, factory_name, None, then)
+
+    def one(h1: List[int]) -> Any:
+        return h1, sequel.ask(module, factory_name, [unit, h1], then)
+
+    with ThreadPoolExecutor(max_workers=workers or min(16, os.cpu_count() or 1)) as pool:
+        for h1, got in pool.map(one, firsts):
+            for h2, a, b in zip(seconds, ref, got):
+                out['n'] += 1
+                if a != b:
+                    out['violations'].append({
+                        'clause': 'depends-on-an-earlier-process', 'features': {'part': 'sequel'},
+                        'detail': {'after_nothing': a, 'after_the_first_process': b},
+                        'case': {'part': 'sequel', 'first': h1, 'second': h2}})
+    out['violations'] = sorted(out['violations'], key=lambda v: (len(v['case']['first']) + len(v['case']['second']),
+                                                                  v['case']['first'], v['case']['second']))[:3]
+    return out
+
+
+def add_sequel(out: Dict[str, Any], part: Dict[str, Any], text: str) -> None:
+    out['violations'].extend(part['violations'])
+    for key in ('evaluations', 'traces_validated_against_impl', 'transitions'):
+        out['coverage'][key] += part['n']
+    out['coverage']['sequel_pairs'] = part['n']
+    out['coverage']['rule'] += ' || ' + text
